@@ -264,3 +264,33 @@ def portable_targets(ctx):
     for t in targets:
         itr, problems = std_run(t, hists)
         compare(ctx, t, STD_TARGETS[t], hists, itr, problems, oracle, KEEP + ("OK",), "PortableHash on %s vs the model" % t)
+
+
+def other_targets(ctx, hists, own_oracle, keep, what, targets=None, limit=60):
+    """"For every ..." in a property includes every target the crate builds for.  Run portable/dispatcher-only histories of a
+    property under Miri on a big-endian 64-bit target (thorough: also big-endian 32-bit and little-endian 32-bit); verdicts: the
+    property's own oracle, and every observable line must equal what the same real code prints natively on the x86_64 host."""
+    hists = list(hists)[:limit if ctx.tier == "quick" else limit * 6]
+    if not hists:
+        return
+    if targets is None:
+        targets = ["s390x-unknown-linux-gnu"] if ctx.tier == "quick" else \
+            ["s390x-unknown-linux-gnu", "powerpc-unknown-linux-gnu", "i686-unknown-linux-gnu"]
+    host = C.build_harness("dev")
+    host_tr, _ = C.impl_run(host, hists)
+
+    def oracle(h, il):
+        msg = own_oracle(h, il)
+        if msg:
+            return msg
+        want = C.filter_lines(host_tr.get(h.hid, []), keep)
+        if not want:          # a shrink candidate: no host reference
+            return None
+        got = C.filter_lines(il, keep)
+        if got != want:
+            d = C.first_diff(got, want)
+            return "on this target the result is `%s`, on the x86_64 host `%s` (output line %d)" % (d[1], d[2], d[0])
+        return None
+    for t in targets:
+        itr, problems = std_run(t, hists)
+        compare(ctx, t, STD_TARGETS[t], hists, itr, problems, oracle, keep, "%s (Miri %s)" % (what, t))
